@@ -94,6 +94,24 @@ fn decode_and_compare(d: &Desc, bytes: &[u8], problems: &mut Vec<String>) -> Res
             let payload = spec::read_optional(&mut r)?;
             (payload != o.map(|v| vec![v])).then(|| "optional element differs".to_string())
         }
+        Desc::OptSparse(_) | Desc::OptRl(_) | Desc::OptWm(_) => {
+            // Optional composites: the payload is the inner type's own format and fills the declared length exactly.
+            let payload = spec::read_optional(&mut r)?;
+            let inner = match d {
+                Desc::OptSparse(o) => o.clone().map(Desc::Sparse),
+                Desc::OptRl(o) => o.clone().map(Desc::Rl),
+                Desc::OptWm(o) => o.clone().map(Desc::Wm),
+                _ => unreachable!(),
+            };
+            match (inner, payload) {
+                (None, None) => None,
+                (Some(di), Some(e)) => {
+                    let b: Vec<u8> = e.iter().flat_map(|x| x.to_le_bytes()).collect();
+                    decode_and_compare(&di, &b, problems)?.map(|m| format!("optional payload: {}", m))
+                }
+                _ => Some("optional presence differs".to_string()),
+            }
+        }
         Desc::OptOptVecU64(_) | Desc::OptOptStr(_) | Desc::OptInt(_) | Desc::OptBv(_) => {
             // Nested / structured optionals: the outer length must cover exactly the rest of the file
             // ("can be loaded and serialized as a vector of elements"); the payload is the inner type's format.
